@@ -108,6 +108,7 @@ func runC11Case(r *ev.Run, c c11Case, env *gen.Env) {
 		var out []byte
 		var operr error
 		expectFail := false
+		failedRefresh := false
 		func() {
 			defer func() {
 				if p := recover(); p != nil {
@@ -214,8 +215,23 @@ func runC11Case(r *ev.Run, c c11Case, env *gen.Env) {
 				atomic.StoreInt32(&gate, 1)
 				var b bytes.Buffer
 				_, operr = m.WriteTo(&b)
+				if rd != nil {
+					// the Reader the caller holds is refreshed while the producer fails ...
+					m.UpdateReader(rd)
+					failedRefresh = rd.Error() != nil
+				}
 				atomic.StoreInt32(&gate, 0)
 				expectFail = true
+				if failedRefresh {
+					// ... and once more now that it works again: the Reader delivers the message like every other path
+					m.UpdateReader(rd)
+					out, operr = io.ReadAll(rd)
+					if operr == nil {
+						operr = rd.Error()
+					}
+					expectFail = false
+					r.Count("readers_refreshed_after_a_failed_refresh", 1)
+				}
 			}
 		}()
 		r.Count("ops_"+strings.SplitN(op, ":", 2)[0], 1)
@@ -388,7 +404,7 @@ func runC11(r *ev.Run, rep *ev.ReplayDoc) ev.Summary {
 	env.Dir = d
 	defer env.Cleanup()
 	sum := ev.Summary{
-		Rule: "seeded message specs (all file sources incl. os files, read-seekers on os.File, fs.FS, templates, and ONE io.ReadSeeker of the caller's behind several files of a message; all file encodings, incl. quoted-printable assigned to File.Enc directly; S/MIME on a share, message middlewares on another) x operation sequences of length 2-5 over {WriteTo, Write, NewReader+ReadAll, 7-byte Reads, UpdateReader, a Reader read in part and then refreshed by UpdateReader, WriteToFile (to a new path and over an existing longer file), WriteToTempFile, WriteToSkipMiddleware, Send via reference server, failing-sink render, failing-producer render}; all pairs of operations enumerated, longer sequences sampled. Every successful output must equal the first successful output byte for byte. non-trivial = message has a file or >=2 parts; distinct by (shape, ops)",
+		Rule: "seeded message specs (all file sources incl. os files, read-seekers on os.File, fs.FS, templates, and ONE io.ReadSeeker of the caller's behind several files of a message; all file encodings, incl. quoted-printable assigned to File.Enc directly; S/MIME on a share, message middlewares on another) x operation sequences of length 2-5 over {WriteTo, Write, NewReader+ReadAll, 7-byte Reads, UpdateReader, a Reader read in part and then refreshed by UpdateReader, WriteToFile (to a new path and over an existing longer file), WriteToTempFile, WriteToSkipMiddleware, Send via reference server, failing-sink render, failing-producer render (which also refreshes the Reader the caller holds while the producer fails, and again afterwards)}; all pairs of operations enumerated, longer sequences sampled. Every successful output must equal the first successful output byte for byte. non-trivial = message has a file or >=2 parts; distinct by (shape, ops)",
 		Assumptions: []string{
 			"for Send the payload is what the reference server committed (dot-unstuffed); contents of 8bit/7bit entities are canonical CRLF so that SMTP's bare-LF canonicalisation does not blur the comparison",
 			"S/MIME: the outer boundary and the signature legitimately change per render; the top-level header (boundary masked) and the signed entity are compared",
